@@ -55,6 +55,11 @@ struct snapshot {
 
 static int verbose;
 static long n_calls, n_frames, n_invloop_bytes, n_hdr_changed, n_fail, n_patchable;
+#define MAXSMP 1024
+#define MAXCH 256
+static int flip_n[MAXSMP];		/* bytes flipped x -> x^0xff in sample i during the last compared call */
+static long flip_off[MAXSMP];		/* data-relative offset of the first of them */
+static int inv_count0[MAXCH], inv_pos0[MAXCH];
 static int has_invloop_fx;	/* module contains (or was given) an invert-loop effect with speed > 0 */
 
 static int alloc_extent(void *inside, unsigned char **begin, size_t *size)
@@ -73,7 +78,8 @@ static int alloc_extent(void *inside, unsigned char **begin, size_t *size)
 static void *dup_mem(const void *p, size_t n)
 {
 	void *q = malloc(n ? n : 1);
-	memcpy(q, p, n);
+	if (n > 0 && p != NULL)
+		memcpy(q, p, n);
 	return q;
 }
 
@@ -187,6 +193,7 @@ static void compare(struct context_data *ctx, struct snapshot *s, int opidx, con
 	int i;
 
 	n_calls++;
+	memset(flip_n, 0, sizeof(flip_n));
 	if (memcmp(&s->hdr, mod, sizeof(*mod)) != 0) {
 		n_hdr_changed++;
 		if (verbose)
@@ -270,6 +277,10 @@ static void compare(struct context_data *ctx, struct snapshot *s, int opidx, con
 				long o = (long)k - sd->pre;
 				if (sd->begin[k] == sd->copy[k])
 					continue;
+				if (i < MAXSMP && sd->begin[k] == (unsigned char)(sd->copy[k] ^ 0xff)) {
+					if (flip_n[i]++ == 0)
+						flip_off[i] = o;
+				}
 				if (legal && o >= lo && o < hi && sd->begin[k] == (unsigned char)(sd->copy[k] ^ 0xff)) {
 					n_invloop_bytes++;
 					continue;
@@ -331,6 +342,44 @@ static int scan_invloop(struct xmp_module *mod)
 		}
 	}
 	return 0;
+}
+
+static void inv_before(struct context_data *ctx)
+{
+	struct player_data *p = &ctx->p;
+	int c;
+	for (c = 0; c < p->virt.virt_channels && c < MAXCH; c++) {
+		inv_count0[c] = p->xc_data[c].invloop.count;
+		inv_pos0[c] = p->xc_data[c].invloop.pos;
+	}
+}
+
+/* one line per channel the invert-loop effect is active on: state before/after this tick, the
+ * sample parameters update_invloop reads, and what was flipped in that sample (model input + real result) */
+static void inv_after(struct context_data *ctx)
+{
+	struct player_data *p = &ctx->p;
+	struct module_data *m = &ctx->m;
+	struct xmp_module *mod = &m->mod;
+	int c;
+	if (!HAS_QUIRK(QUIRK_PROTRACK | QUIRK_INVLOOP))
+		return;
+	for (c = 0; c < p->virt.virt_channels && c < MAXCH; c++) {
+		struct channel_data *xc = &p->xc_data[c];
+		int present = xc->smp >= 0 && xc->smp < mod->smp && xc->smp < MAXSMP;
+		struct xmp_sample *x = present ? &mod->xxs[xc->smp] : NULL;
+		if (xc->invloop.speed <= 0 || xc->invloop.speed > 15 || xc->ins >= mod->ins || xc->ins < 0)
+			continue;
+		printf("inv %ld %d %d %d %d %d %d %d ", n_calls, c, xc->invloop.speed, inv_count0[c], inv_pos0[c],
+		       xc->invloop.count, xc->invloop.pos, xc->smp);
+		if (present)
+			printf("1 %d %d %d %d %d %d %d %d %d %ld\n", (x->flg & XMP_SAMPLE_LOOP) ? 1 : 0,
+			       (x->flg & XMP_SAMPLE_SLOOP) ? 1 : 0, (x->flg & XMP_SAMPLE_16BIT) ? 1 : 0, x->data == NULL,
+			       x->lps, x->lpe, m->xtra ? m->xtra[xc->smp].sus : 0, m->xtra ? m->xtra[xc->smp].sue : 0,
+			       flip_n[xc->smp], flip_n[xc->smp] ? flip_off[xc->smp] : -1L);
+		else
+			printf("0 0 0 0 0 0 0 0 0 0 -1\n");
+	}
 }
 
 static const int rates[] = { 4000, 8000, 11025, 16000, 22050, 44100, 48000, 49170 };
@@ -400,9 +449,13 @@ static int run_case(uint64_t case_seed, int nops, const char *path)
 		if (k < 45) {
 			int n = vrng_chance(70) ? vrng_range(1, 6) : vrng_range(6, 40), j, r = 0;
 			for (j = 0; j < n && r == 0; j++) {
+				if (started && ctx->p.xc_data)
+					inv_before(ctx);
 				r = xmp_play_frame(opaque);
 				n_frames++;
 				AFTER("xmp_play_frame", 0);
+				if (r == 0 && ctx->p.xc_data)
+					inv_after(ctx);
 			}
 		} else if (k < 52) {
 			int size = vrng_range(1, (int)sizeof(outbuf));
